@@ -2,11 +2,15 @@ package props
 
 import (
 	"fmt"
+	"os"
+	"path/filepath"
+	"regexp"
 	"slices"
 	"strings"
 	"sync"
 
 	"github.com/AdguardTeam/urlfilter"
+	"github.com/AdguardTeam/urlfilter/filterlist"
 	"github.com/AdguardTeam/urlfilter/rules"
 
 	"verifharness/internal/core"
@@ -621,6 +625,34 @@ func c07EngineSelection(c *core.Ctx) {
 		srcURL = "https://shop." + suffix + "/"
 		c.Event("engine_selection_lists_with_public_suffix_domains", 1)
 	}
+	if c.Rng.Intn(4) == 0 {
+		// One candidate gets a value list long enough for its line to exceed
+		// the 4 KiB and 8 KiB read buffers (fillers in the polarity that changes
+		// nothing; the modifiers after the list still count).
+		re := regexp.MustCompile(`(domain|denyallow|ctag)=([^,]+)`)
+		for _, i := range c.Rng.Perm(len(lines)) {
+			m := re.FindStringSubmatchIndex(lines[i])
+			if m == nil {
+				continue
+			}
+			val := lines[i][m[4]:m[5]]
+			neg := ""
+			if strings.HasPrefix(val, "~") && !strings.Contains(val, "|") || strings.Count(val, "~") == strings.Count(val, "|")+1 {
+				neg = "~"
+			}
+			var sb strings.Builder
+			for k, n := 0, []int{230, 420}[c.Rng.Intn(2)]; k < n; k++ {
+				fmt.Fprintf(&sb, "|%sfiller%d.example", neg, k)
+			}
+			if lines[i][m[2]:m[3]] == "ctag" {
+				break
+			}
+			lines[i] = lines[i][:m[5]] + sb.String() + lines[i][m[5]:]
+			c.Event("engine_selection_lists_with_a_line_longer_than_4k", 1)
+
+			break
+		}
+	}
 	if c.Rng.Intn(6) == 0 {
 		// A blocking rule and an exception whose whole texts have the same
 		// 32-bit hash (both without an index key: they meet in the sequential
@@ -645,8 +677,45 @@ func c07EngineSelection(c *core.Ctx) {
 	for _, p := range parts {
 		contents = append(contents, util.Lines(p))
 	}
-	ne := urlfilter.NewNetworkEngine(util.Storage(contents...))
-	eng := urlfilter.NewEngine(util.Storage(contents...))
+	storageOf := func() *filterlist.RuleStorage { return util.Storage(contents...) }
+	if c.Rng.Intn(3) == 0 {
+		// The same lists backed by files (rules are read again from the file
+		// when they are looked up).
+		if dir, derr := os.MkdirTemp(filepath.Join(c.Env.VerifDir, ".work"), "c07f."); derr == nil {
+			defer os.RemoveAll(dir)
+			ids := util.ListIDs(contents...)
+			var opened []*filterlist.RuleStorage
+			defer func() {
+				for _, s := range opened {
+					_ = s.Close()
+				}
+			}()
+			storageOf = func() *filterlist.RuleStorage {
+				var ls []filterlist.RuleList
+				for i, content := range contents {
+					fn := filepath.Join(dir, fmt.Sprintf("l%d-%d.txt", len(opened), i))
+					if os.WriteFile(fn, []byte(content), 0o644) != nil {
+						return util.Storage(contents...)
+					}
+					fl, ferr := filterlist.NewFileRuleList(ids[i], fn, false)
+					if ferr != nil {
+						return util.Storage(contents...)
+					}
+					ls = append(ls, fl)
+				}
+				s, serr := filterlist.NewRuleStorage(ls)
+				if serr != nil {
+					return util.Storage(contents...)
+				}
+				opened = append(opened, s)
+
+				return s
+			}
+			c.Event("engine_selection_lists_backed_by_files", 1)
+		}
+	}
+	ne := urlfilter.NewNetworkEngine(storageOf())
+	eng := urlfilter.NewEngine(storageOf())
 	// The candidates, established without any engine: every line parsed on its
 	// own and asked whether it matches.
 	var all []*rules.NetworkRule
@@ -699,7 +768,7 @@ func c07EngineSelection(c *core.Ctx) {
 	}
 	check("Engine.MatchRequest", eng.MatchRequest(req).BasicRule)
 	// The DNS entry point has a selection function of its own.
-	de := urlfilter.NewDNSEngine(util.Storage(contents...))
+	de := urlfilter.NewDNSEngine(storageOf())
 	dres, _ := de.MatchRequest(&urlfilter.DNSRequest{Hostname: "x.com", DNSType: 1, ClientIP: req.ClientIP, SortedClientTags: req.SortedClientTags})
 	// The candidates of the DNS engine, established without it: every line that
 	// it loads (host-level rules), asked whether it matches the host name.
